@@ -266,7 +266,7 @@ type RunOpts struct {
 
 func newExec(P *Program, h *HarnessSpec, opts RunOpts) (*Exec, error) {
 	tt := NewTermTable()
-	to := 20000
+	to := 60000
 	if opts.Tier > 0 {
 		to = 120000
 	}
